@@ -162,6 +162,11 @@ structure HState where
 
 def HState.scratch : HState := ⟨0, none, false⟩
 
+/-- `State.with_handlers`: a selected handler without a record starts from scratch. -/
+def HState.ofOpt : Option HState → HState
+  | some h => h
+  | none => HState.scratch
+
 /-- `HandlerState.awakened` at loop time `now`. -/
 def HState.awake (h : HState) (now : Nat) : Bool :=
   !h.failed && !(match h.delayed with | some d => decide (d > now) | none => false)
@@ -275,8 +280,7 @@ def discardAll (ids : List Id) (o : O) (ixs : Id → Index (Option K) V O) :
   foldUpd (fun _ ix => ix.discard o none) ids ixs
 
 /-- `State.with_handlers`: the state a selected handler runs with. -/
-def hstateOf (mem : Id → Option HState) (i : Id) : HState :=
-  match mem i with | some h => h | none => HState.scratch
+def hstateOf (mem : Id → Option HState) (i : Id) : HState := HState.ofOpt (mem i)
 
 /-- The indexing part of `process_resource_event` for one event. -/
 def step (cfg : List (Indexer Id Res L)) (defaultBackoff : Nat) (s : State Id K V O)
@@ -375,7 +379,7 @@ def refStep (cfg : List (Indexer Id Res L)) (defaultBackoff : Nat) (c : Indexer 
     else if e.deleted then ⟨[], none⟩                          -- deleted: values removed
     else if !(c.selects e) then ⟨[], r.excl⟩                   -- filter mismatch: values removed
     else
-      let h := match r.excl with | some h => h | none => HState.scratch
+      let h := HState.ofOpt r.excl
       if !(h.awake e.t) then ⟨[], some h⟩                      -- excluded: not even invoked
       else if (match c.retries with | some n => decide (h.retries ≥ n) | none => false) then
         ⟨[], some ⟨h.retries + 1, none, true⟩⟩                 -- retries budget is zero: permanent
